@@ -23,7 +23,8 @@ Record J (d : driver) : Prop := {
   j_refs : forall i, (i < length (dv_refs d))%nat -> cnt (dv_known d) i + idle i <= nth i (dv_refs d) 0;
   j_progs : Forall (prog_ok (dv_dev d)) (dv_known d);
   j_belief : dv_hashes d = dv_dev d;
-  j_names : NoDup (map pg_name (dv_known d))
+  j_names : NoDup (map pg_name (dv_known d));
+  j_idle : nth 0%nat (dv_dev d) 0 = IDLE       (* the idle waveform is never overwritten *)
 }.
 
 Lemma cnt_nonneg ps i : 0 <= cnt ps i.
@@ -145,6 +146,7 @@ Proof.
   - apply Forall_forall. intros q Hq. apply filter_In in Hq as [Hq _]. apply Hall. exact Hq.
   - apply I.
   - apply NoDup_map_filter. apply I.
+  - apply I.
 Qed.
 
 Lemma free_names d name : ~ In name (map pg_name (dv_known (fst (free_program d name)))).
@@ -191,6 +193,7 @@ Proof.
     rewrite nth_firstn' by exact HiF. exact Hc.
   - rewrite (j_belief _ I). reflexivity.
   - apply I.
+  - rewrite nth_firstn' by lia. apply I.
 Qed.
 
 (* ---- upload: auxiliary lemmas ---- *)
@@ -615,6 +618,9 @@ Section history.
         rewrite nth_firstn_app1 by lia. rewrite Hold; [exact Hcont|lia|exact Hni].
     - rewrite Hbel3. reflexivity.
     - rewrite Hk3. cbn [d2 with_refs dv_known]. constructor; [exact Hname|apply I].
+    - (* slot 0 is referenced (idle sequence), hence not written and not dropped *)
+      destruct (Hmono 0%nat ltac:(lia) Hr0) as [Hni0 _].
+      rewrite nth_firstn_app1 by lia. rewrite Hold by (auto; lia). apply I.
   Qed.
 End history.
 
@@ -694,6 +700,83 @@ Proof.
   split; [apply I|]. split; [apply I|]. split; [apply (J_refs_nonneg d I)|]. split; [apply I|]. split; [|apply I].
   pose proof (j_refs _ I 0%nat (j_pos _ I)) as H. pose proof (cnt_nonneg (dv_known d) 0). cbn in H. lia.
 Qed.
+
+(* reference counts: after every history the count of slot i is at least the number of known programs that play from
+   slot i, plus one for slot 0 (idle sequence).  This is the argument behind "slot 0 is never released": programs whose
+   segment is bit-identical to the idle waveform re-use slot 0, are counted on upload and un-counted on removal. *)
+Theorem history_refcounts_gen (place : place_fun) :
+  (forall mem nh nl d, Forall (fun r => 0 <= r) (m_refs mem) -> place mem nh nl = Ok d -> decision_ok mem nh nl d) ->
+  forall total ops i,
+  let d := run_with place (clear total) ops in
+  (i < length (dv_refs d))%nat ->
+  Z.of_nat (length (filter (fun p => existsb (Z.eqb (Z.of_nat i)) (pg_w2s p)) (dv_known d)))
+  + (if Nat.eqb i 0 then 1 else 0) <= nth i (dv_refs d) 0.
+Proof.
+  intros place_ok total ops i d Hi.
+  assert (I : J d) by (apply (J_run place place_ok); apply J_clear).
+  exact (j_refs _ I i Hi).
+Qed.
+
+Theorem history_refcounts total ops i :
+  let d := run (clear total) ops in
+  (i < length (dv_refs d))%nat ->
+  Z.of_nat (length (filter (fun p => existsb (Z.eqb (Z.of_nat i)) (pg_w2s p)) (dv_known d)))
+  + (if Nat.eqb i 0 then 1 else 0) <= nth i (dv_refs d) 0.
+Proof. exact (history_refcounts_gen find_place find_place_decision_ok total ops i). Qed.
+
+(* the idle slot: slot 0 exists, the instrument and the driver's record hold the idle waveform in it, and its count
+   exceeds the number of programs sharing it *)
+Theorem history_idle_slot total ops :
+  let d := run (clear total) ops in
+  (1 <= length (dv_dev d))%nat /\ nth 0%nat (dv_dev d) 0 = IDLE /\ nth 0%nat (dv_hashes d) 0 = IDLE /\
+  Z.of_nat (length (filter (fun p => existsb (Z.eqb 0) (pg_w2s p)) (dv_known d))) + 1 <= nth 0%nat (dv_refs d) 0.
+Proof.
+  intros d. assert (I : J d) by (apply (J_run find_place find_place_decision_ok); apply J_clear).
+  split; [rewrite (j_len_d _ I); apply I|]. split; [apply I|]. split; [rewrite (j_belief _ I); apply I|].
+  exact (j_refs _ I 0%nat (j_pos _ I)).
+Qed.
+
+(* non-vacuity for slot 0: two programs containing a segment identical to the idle waveform share slot 0; the first
+   is removed; a further program with an unknown 192-point segment is uploaded *)
+Definition slot0_ops : list op :=
+  [OUpload 1 [idle_seg; (11, 256)] false; OUpload 2 [idle_seg; (12, 320)] false; ORemove 1].
+Definition slot0_next : op := OUpload 3 [(13, 192); (14, 256)] false.
+Example slot0_history :
+  let d := run (clear 100000) slot0_ops in
+  let d' := run (clear 100000) (slot0_ops ++ [slot0_next]) in
+  map (fun p => (pg_name p, pg_w2s p)) (dv_known d) = [(2%nat, [0; 2])] /\ dv_refs d = [2; 0; 1] /\
+  map (fun p => (pg_name p, pg_w2s p)) (dv_known d') = [(3%nat, [3; 1]); (2%nat, [0; 2])] /\
+  dv_dev d' = [0; 14; 12; 13] /\ dv_refs d' = [2; 1; 1; 1].
+Proof. vm_compute. repeat split. Qed.
+
+Lemma run_counted_ge d ops : run_counted (fun p => 0 <=? p) d ops = run d ops.
+Proof.
+  revert d. induction ops as [|o ops IH]; intros d; [reflexivity|]. cbn [run_counted run run_with].
+  replace (step_counted (fun p => 0 <=? p) d o) with (step_with find_place d o) by (destruct o; reflexivity).
+  apply IH.
+Qed.
+
+(* the re-use of slot 0 must be counted: with `waveform_to_segment > 0` as mask (the idiom of the next line of the
+   code, `to_insert > 0`) the same history leaves slot 0 with count 0 although program 2 plays from it, the placement
+   then offers slot 0 for the 192-point segment of program 3 (to_insert = 0, which upload() ignores), and program 3
+   is registered with waveform_to_segment = -1 for a segment that was never written *)
+Example slot0_reuse_must_be_counted :
+  let gt := fun p => 0 <? p in
+  let d := run_counted gt (clear 100000) slot0_ops in
+  let d' := run_counted gt (clear 100000) (slot0_ops ++ [slot0_next]) in
+  (* program 2 plays from slot 0, whose count is 0 *)
+  map (fun p => (pg_name p, pg_w2s p)) (dv_known d) = [(2%nat, [0; 2])] /\ dv_refs d = [0; 0; 1] /\
+  (* program 3's first segment (hash 13) is in no slot; -1 is read by numpy as "the last slot", which holds 12 *)
+  map (fun p => (pg_name p, pg_w2s p)) (dv_known d') = [(3%nat, [-1; 1]); (2%nat, [0; 2])] /\ dv_dev d' = [0; 14; 12].
+Proof. vm_compute. repeat split. Qed.
+Lemma slot0_reuse_must_be_counted_full :
+  (forall d ops, run_counted (fun p => 0 <=? p) d ops = run d ops) /\
+  let gt := fun p => 0 <? p in
+  let d := run_counted gt (clear 100000) slot0_ops in
+  let d' := run_counted gt (clear 100000) (slot0_ops ++ [slot0_next]) in
+  map (fun p => (pg_name p, pg_w2s p)) (dv_known d) = [(2%nat, [0; 2])] /\ dv_refs d = [0; 0; 1] /\
+  map (fun p => (pg_name p, pg_w2s p)) (dv_known d') = [(3%nat, [-1; 1]); (2%nat, [0; 2])] /\ dv_dev d' = [0; 14; 12].
+Proof. exact (conj run_counted_ge slot0_reuse_must_be_counted). Qed.
 
 (* a non-trivial history: two programs sharing a segment, removal of the first, re-use of the freed slot 1 (equal
    capacity), forced re-upload of program 2 into its own freed, larger slot 3 *)
